@@ -226,7 +226,22 @@ func ToV(rv reflect.Value) value.V {
 		return value.Nil()
 	}
 	switch rv.Kind() {
-	case reflect.Pointer, reflect.Interface:
+	case reflect.Interface:
+		if rv.IsNil() {
+			return value.Nil()
+		}
+		// a union: the interface holds one of the named wrapper types the
+		// generated service package declares (<Union><Alternative>); keep
+		// the wrapper's name so that the alternative can be told
+		et := rv.Elem().Type()
+		for et.Kind() == reflect.Pointer {
+			et = et.Elem()
+		}
+		if rv.Type().NumMethod() > 0 && et.PkgPath() != "" && et.Name() != "" {
+			return value.V{K: "union", S: et.Name(), A: []value.V{ToV(rv.Elem())}}
+		}
+		return ToV(rv.Elem())
+	case reflect.Pointer:
 		if rv.IsNil() {
 			return value.Nil()
 		}
